@@ -37,6 +37,7 @@
 (*   surv    which bins reached the segmentation kernel (recorded at the kernel's entry)        *)
 (*   sd9     robust autosomal spread the HMM was built with, * 10^9 (0 = none / zero / NaN)     *)
 (*   forced, kern   the harness replaced the numeric kernel by one returning the cuts `kern`    *)
+(*              (a sequence of cut positions)                                                   *)
 (*   out, err   observed segments / exception;   arms (op = "byarm"): observed arms             *)
 EXTENDS Naturals, Integers, Sequences, FiniteSets, FiniteSetsExt, SequencesExt, Functions, TLC, Num
 Iv == INSTANCE Intervals      \* reused: UniqSeq (distinct in order of first appearance), RoundHalfEven,
@@ -362,7 +363,7 @@ ALayerCoW(r, kern) == TransferFieldsCoW(r, RawRows(r, kern))
 (* ---- the kernel's choice, read back from an observed output: cumulative probes ---- *)
 RECURSIVE CumCuts(_, _, _)
 CumCuts(out, k, acc) == IF k >= Len(out) THEN {} ELSE {acc + out[k].p} \cup CumCuts(out, k + 1, acc + out[k].p)
-KernUsed(r) == IF r.forced THEN r.kern ELSE CumCuts(r.out, 1, 0)
+KernUsed(r) == IF r.forced THEN ToSet(r.kern) ELSE CumCuts(r.out, 1, 0)     \* r.kern: a sequence in traces
 
 RowMatches(r, o, x) ==
     /\ o.c = x.c /\ o.s = x.s /\ o.e = x.e /\ o.pok /\ o.p = x.p /\ o.g = x.g
